@@ -189,9 +189,14 @@ func newCA() (*caSet, error) {
 // chain issues a leaf for key and returns [leaf, (intermediate), (root)]; n = 1 self-signed leaf,
 // 2 leaf+root, 3 leaf+intermediate+root. ski (may be nil) is the leaf's subject key identifier.
 func (ca *caSet) chain(key crypto.Signer, n int, cn string, ski []byte, usage x509.KeyUsage) ([]*x509.Certificate, error) {
+	return ca.chainUntil(key, n, cn, ski, usage, time.Now().Add(48*time.Hour))
+}
+
+// chainUntil is chain with an explicit end of the leaf's validity.
+func (ca *caSet) chainUntil(key crypto.Signer, n int, cn string, ski []byte, usage x509.KeyUsage, notAfter time.Time) ([]*x509.Certificate, error) {
 	tmpl := &x509.Certificate{
 		SerialNumber: ca.nextSerial(), Subject: pkix.Name{CommonName: cn},
-		NotBefore: time.Now().Add(-time.Hour), NotAfter: time.Now().Add(48 * time.Hour),
+		NotBefore: time.Now().Add(-time.Hour), NotAfter: notAfter,
 		KeyUsage: usage, SubjectKeyId: ski, BasicConstraintsValid: true,
 	}
 	var (
@@ -313,6 +318,10 @@ type storeOpts struct {
 	Password  string // non-empty: encrypted PKCS#8 blocks may be used
 	Prefer    string // preferred key kind ("" = weighted random)
 	Bad       string
+	// ActiveChain > 0: the active entry gets a certificate chain of exactly this length whose leaf is valid until
+	// ActiveNotAfter (certificates have a validity window; the process may outlive it)
+	ActiveChain    int
+	ActiveNotAfter time.Time
 }
 
 // buildStore creates one key-store generation.
@@ -337,6 +346,10 @@ func buildStore(idx int, o storeOpts, pk *keyPicker, ca *caSet, rng *mrand.Rand)
 		es := &entrySpec{Kind: k.Kind, Alg: kindAlg[k.Kind], key: k.Key, pub: k.Key.Public()}
 		// certificate chain
 		es.Chain = []int{0, 0, 1, 2, 3}[rng.IntN(5)]
+		notAfter := time.Now().Add(48 * time.Hour)
+		if o.ActiveChain > 0 && e == g.Active {
+			es.Chain, notAfter = o.ActiveChain, o.ActiveNotAfter
+		}
 		var ski []byte
 		if es.Chain > 0 {
 			if rng.IntN(2) == 0 {
@@ -350,7 +363,7 @@ func buildStore(idx int, o storeOpts, pk *keyPicker, ca *caSet, rng *mrand.Rand)
 				usage = x509.KeyUsageKeyEncipherment
 			}
 			var err error
-			if es.chain, err = ca.chain(k.Key, es.Chain, fmt.Sprintf("%s-e%d", o.Tag, e), ski, usage); err != nil {
+			if es.chain, err = ca.chainUntil(k.Key, es.Chain, fmt.Sprintf("%s-e%d", o.Tag, e), ski, usage, notAfter); err != nil {
 				return nil, err
 			}
 			for _, c := range es.chain {
